@@ -310,10 +310,11 @@ def _alloc_candidates_multiple_providers(rg_ctx, rw_ctx, rp_candidates):
     if not rp_candidates:
         return set()
 
-    # Get all the root resource provider IDs. We should include the first
-    # values of rp_tuples because while sharing providers are root providers,
-    # they have their "anchor" providers for the second value.
-    root_ids = rp_candidates.all_rps
+    # Get all the root resource provider IDs: the anchors, plus the roots of
+    # the trees the providers themselves live in. For a sharing provider these
+    # differ, and a sharing provider is not necessarily a root provider.
+    root_ids = rp_candidates.trees | _root_ids_from_rp_ids(
+        rg_ctx.context, rp_candidates.rps)
 
     # Get a dict, keyed by resource provider internal ID, of trait string names
     # that provider has associated with it
@@ -915,6 +916,16 @@ def _get_ancestors_by_one_uuid(
     ancestors.add(parent_uuid)
     return _get_ancestors_by_one_uuid(
         parent_uuid, parent_uuid_by_rp_uuid, ancestors=ancestors)
+
+
+def _root_ids_from_rp_ids(context, rp_ids):
+    """Given an iterable of internal resource provider IDs, returns the set of
+    internal IDs of the root providers of the trees they belong to.
+    """
+    sel = sa.select(_RP_TBL.c.root_provider_id).where(
+        _RP_TBL.c.id.in_(sa.bindparam('rp_ids', expanding=True)))
+    return set(
+        r[0] for r in context.session.execute(sel, {'rp_ids': list(rp_ids)}))
 
 
 def _provider_ids_from_root_ids(context, root_ids):
